@@ -13,9 +13,10 @@ def run(sid):
     return (p.stdout.strip().splitlines() or [p.stderr.strip()[-200:]])[-1]
 
 
-with ThreadPoolExecutor(max_workers=10) as ex:
-    for line in ex.map(run, ids):
-        print(line)
+if "--table-only" not in sys.argv:  # (--table-only: regenerate the table of DESIGN.md from the stored metas)
+    with ThreadPoolExecutor(max_workers=10) as ex:
+        for line in ex.map(run, ids):
+            print(line)
 
 rows, n_det = [], 0
 for sid in ids:
